@@ -38,7 +38,7 @@ def check(spec):
     got = list(itertools.islice(iter(sampler), bound + 1))
     if len(got) > bound:
         raise Violation("does-not-end", f"stream longer than {bound} items (model: {len(ref['stream'])})")
-    N = spec["N"]
+    N = im.main_size(spec)  # global indices below the main dataset's size are main indices
     got_main = [(bool(f), int(g)) for f, g in got if g < N]
     for f, g in got:
         if g < N:
@@ -71,7 +71,7 @@ def check(spec):
                 raise Violation("iter-before-set-epoch", str(main.log[:6]))
     # the stream is defined by the announced epochs, not by what the sampler objects went through before: a second pass over the
     # very same scheduler object - with the main sampler's epoch touched from outside in between - yields the same stream
-    if spec["main_kind"] in ("seq", "kd_seq", "epoch", "kd_dist"):
+    if spec["main_kind"] in ("seq", "kd_seq", "epoch", "kd_dist", "kd_dist2"):
         if hasattr(main, "set_epoch"):
             main.set_epoch(17)
         mark = len(main.log) if spec["main_kind"] == "epoch" else None
